@@ -297,3 +297,14 @@ func trunc(b []byte, n int) []byte {
 	}
 	return b
 }
+
+// describeTruncated renders a bulk packet of which only the head was kept.
+func describeTruncated(head []byte, full int) string {
+	if len(head) >= 13 && head[0] == MsgChanExtData {
+		return fmt.Sprintf("EXT_DATA rcpt=%d code=%d len=%d (%d bytes)", binary.BigEndian.Uint32(head[1:]), binary.BigEndian.Uint32(head[5:]), binary.BigEndian.Uint32(head[9:]), full)
+	}
+	if len(head) >= 9 && head[0] == MsgChanData {
+		return fmt.Sprintf("DATA rcpt=%d len=%d (%d bytes)", binary.BigEndian.Uint32(head[1:]), binary.BigEndian.Uint32(head[5:]), full)
+	}
+	return fmt.Sprintf("%s (%d bytes, head %x)", typeName(head[0]), full, trunc(head, 24))
+}
